@@ -96,9 +96,9 @@ Qed.
 Lemma inv_recycle_like L L' ev rl wl ch rel st :
   inv L rl wl ch rel st ->
   qwf L' -> (forall k, holderK L' k = holderK L k) ->
-  (forall k, maxK L' k = maxK L k \/ (maxK L' k = 0%N /\ In (ERecycle k) ev)) ->
+  (forall k, maxK L' k = maxK L k \/ (maxK L' k = 0%N /\ exists c m, In (ERecycle k c m) ev)) ->
   (forall s, waitS L' s = waitS L s) -> locks L' = locks L -> glog L' = ev ++ glog L ->
-  (forall e, In e ev -> exists k, e = ERecycle k) ->
+  rec_shape ev ->
   inv L' rl wl ch rel st.
 Proof.
   intros [] Q H M W LK G SH.
@@ -119,7 +119,7 @@ Proof.
   - intros i S. destruct (i_stale0 i S) as (k & j & c & A & B & C & D). exists k, j, c. rewrite G.
     repeat split; auto. apply in_or_app; auto.
   - intros k c. rewrite G. intros X. apply live_rels_recycle_app in X; auto. destruct X as [X1 X2].
-    destruct (M k) as [M1|[_ M1]]; [rewrite M1; auto | contradiction].
+    destruct (M k) as [M1|[_ (c0 & m0 & M1)]]; [rewrite M1; auto | exfalso; eapply X1; eauto].
   - intros i k S X. rewrite G. apply acq_ok_app. auto.
 Qed.
 
@@ -130,9 +130,9 @@ Proof.
   eapply inv_recycle_like with (ev := recycle_events L s t); eauto.
   - apply recycle_qwf; auto.
   - intros k. apply recycle_holderK; auto.
-  - intros k. apply recycle_maxK; auto.
+  - intros k. destruct (recycle_maxK sf L s t k Q) as [A|[A B]]; [left; auto | right; split; eauto].
   - intros s'. apply recycle_waitS.
-  - apply recycle_events_shape.
+  - intros e; apply recycle_events_shape.
 Qed.
 Lemma inv_maybe_recycle L s t rl wl ch rel st :
   inv L rl wl ch rel st -> inv (maybe_recycle L s t) rl wl ch rel st.
@@ -141,11 +141,11 @@ Proof.
   eapply inv_recycle_like with (ev := mr_events L s t); eauto.
   - apply mr_qwf; auto.
   - intros k. apply mr_holderK; auto.
-  - intros k. apply mr_maxK; auto.
+  - intros k. destruct (mr_maxK sf L s t k Q) as [A|[A B]]; [left; auto | right; split; eauto].
   - intros s'. apply mr_waitS.
   - apply mr_locks.
   - apply mr_glog.
-  - apply mr_events_shape.
+  - intros e; apply mr_events_shape.
 Qed.
 
 (* ---------- LStart ---------- *)
